@@ -24,18 +24,40 @@ INT = {'prim': 'int'}
 OPT_INT = {'prim': 'option', 'args': [INT]}
 
 
+# value types of the maps: the dictionary semantics never looks at the value, so the histories carry an integer CODE that is
+# rendered as a value of the chosen type on the real side (code 0 is the one Python treats as falsy: False, "", 0x, {} …)
+VALUE_KINDS = {
+    'int': (INT, None, None),
+    'bool': ({'prim': 'bool'}, [{'prim': 'False'}, {'prim': 'True'}], lambda o: 1 if bool(o) else 0),
+    'string': ({'prim': 'string'}, [{'string': ''}, {'string': 'a'}, {'string': 'b'}, {'string': 'ab'}], lambda o: ['', 'a', 'b', 'ab'].index(str(o))),
+    'bytes': ({'prim': 'bytes'}, [{'bytes': ''}, {'bytes': '00'}, {'bytes': '01'}, {'bytes': 'ff00'}],
+              lambda o: ['', '00', '01', 'ff00'].index(bytes(o).hex())),
+    'list int': ({'prim': 'list', 'args': [INT]}, [[], [{'int': '0'}], [{'int': '1'}, {'int': '2'}]], lambda o: [0, 1, 2].index(len(list(o)))),
+    'option int': ({'prim': 'option', 'args': [INT]}, [{'prim': 'None'}, {'prim': 'Some', 'args': [{'int': '0'}]}, {'prim': 'Some', 'args': [{'int': '5'}]}],
+                   lambda o: 0 if o.item is None else (1 if int(o.item) == 0 else 2)),
+    'set nat': ({'prim': 'set', 'args': [{'prim': 'nat'}]}, [[], [{'int': '0'}], [{'int': '1'}, {'int': '2'}]], lambda o: [0, 1, 2].index(len(list(o)))),
+}
+
+
 def P(prim, *args):
     return {'prim': prim, 'args': list(args)} if args else {'prim': prim}
 
 
 # ---------------------------------------------------------------------------------------------------------------------
 class Universe:
-    def __init__(self, t, vals):
-        self.t, self.vals = t, vals
+    def __init__(self, t, vals, vkind='int'):
+        self.t, self.vals, self.vkind = t, vals, vkind
+        self.vty, self.vlits, self.vdec_fn = VALUE_KINDS[vkind]
         self.raws = [R.raw_of_abs(t, v) for v in vals]
         self.rep = [next(j for j in range(len(vals)) if G.tz_eq(vals[j], vals[i])) for i in range(len(vals))]
         order = sorted(set(self.rep), key=functools.cmp_to_key(lambda i, j: G.tz_cmp(vals[i], vals[j])))
         self.rank = {c: r for r, c in enumerate(order)}
+
+    def venc(self, code):
+        return {'int': str(code)} if self.vlits is None else self.vlits[int(code)]
+
+    def vdec(self, obj):
+        return int(obj) if self.vlits is None else self.vdec_fn(obj)
 
     def cls_of_raw(self, raw):
         i = R._index_of(raw, self.raws)
@@ -57,14 +79,19 @@ def gen_universe(rng, t, n):
     return vals
 
 
-def gen_history(rng, kind, n, max_len):
+def _val(rng, hi):
+    """map value codes: a quarter are 0 — the falsy value of every value kind (`if prev_val:` is not `if prev_val is not None:`)"""
+    return 0 if rng.random() < 0.25 else rng.randrange(-3 if hi > 4 else 0, hi)
+
+
+def gen_history(rng, kind, n, max_len, vcodes=None):
     """(start, ops) in the token form of the driver"""
     if rng.random() < 0.7:
         start = ['e']
     else:
         k = rng.randrange(0, n + 1)
         idxs = [rng.randrange(n) for _ in range(k)] if rng.random() < 0.3 else rng.sample(range(n), k)
-        start = [f'l{k}'] + [str(i) if kind == 'set' else f'{i}:{rng.randrange(-3, 9)}' for i in idxs]
+        start = [f'l{k}'] + [str(i) if kind == 'set' else f'{i}:{_val(rng, vcodes or 9)}' for i in idxs]
     ln = rng.randrange(1, max_len + 1)
     ops = []
     for _ in range(ln):
@@ -73,9 +100,9 @@ def gen_history(rng, kind, n, max_len):
         if kind == 'set':
             ops.append(f'a{i}' if r < 0.45 else f'r{i}' if r < 0.75 else f'm{i}' if r < 0.88 else 'z' if r < 0.94 else 'i')
         else:
-            v = rng.randrange(-3, 50)
+            v = _val(rng, vcodes or 50)
             ops.append(f'u{i}:{v}' if r < 0.36 else f'd{i}' if r < 0.54 else f'G{i}:{v}' if r < 0.64 else f'D{i}' if r < 0.72
-                       else f'g{i}' if r < 0.80 else f'm{i}' if r < 0.86 else f'M{rng.randrange(-2, 4)}' if r < 0.92 else 'z' if r < 0.96 else 'i')
+                       else f'g{i}' if r < 0.80 else f'm{i}' if r < 0.86 else (f'M{rng.randrange(-2, 4)}' if vcodes is None else f'g{i}') if r < 0.92 else 'z' if r < 0.96 else 'i')
     return start, ops
 
 
@@ -147,7 +174,7 @@ def real_run(u, kind, start, ops):
     def show(coll):
         if kind == 'set':
             return ','.join(str(u.cls_of_raw(R.raw_of_obj(x))) for x in coll)
-        return ','.join(f'{u.cls_of_raw(R.raw_of_obj(k))}:{int(v)}' for k, v in coll)
+        return ','.join(f'{u.cls_of_raw(R.raw_of_obj(k))}:{u.vdec(v)}' for k, v in coll)
 
     def ex(seq):
         st, e = R.run_seq(seq, stack)
@@ -158,11 +185,11 @@ def real_run(u, kind, start, ops):
 
     out = []
     if start[0] == 'e':
-        e = ex([P('EMPTY_SET', te)] if kind == 'set' else [P('EMPTY_MAP', te, INT)])
+        e = ex([P('EMPTY_SET', te)] if kind == 'set' else [P('EMPTY_MAP', te, u.vty)])
     elif kind == 'set':
         e = ex([P('PUSH', P('set', te), [key(x) for x in start[1:]])])
     else:
-        e = ex([P('PUSH', P('map', te, INT), [P('Elt', key(x.split(':')[0]), {'int': x.split(':')[1]}) for x in start[1:]])])
+        e = ex([P('PUSH', P('map', te, u.vty), [P('Elt', key(x.split(':')[0]), u.venc(x.split(':')[1])) for x in start[1:]])])
     if e is not None:
         return [R.classify_error(e)]
     out.append(';' + show(stack.items[0]))
@@ -179,16 +206,16 @@ def real_run(u, kind, start, ops):
             e = ex([P('DUP'), P('PUSH', te, key(body)), P('GET')])
             if e is None:
                 r = stack.items.pop(0)
-                obs = 'N' if r.item is None else str(int(r.item))
+                obs = 'N' if r.item is None else str(u.vdec(r.item))
         elif c in 'ud':
-            val = P('None') if c == 'd' else P('Some', {'int': body.split(':')[1]})
-            e = ex([P('PUSH', OPT_INT, val), P('PUSH', te, key(body.split(':')[0])), P('UPDATE')])
+            val = P('None') if c == 'd' else P('Some', u.venc(body.split(':')[1]))
+            e = ex([P('PUSH', P('option', u.vty), val), P('PUSH', te, key(body.split(':')[0])), P('UPDATE')])
         elif c in 'GD':
-            val = P('None') if c == 'D' else P('Some', {'int': body.split(':')[1]})
-            e = ex([P('PUSH', OPT_INT, val), P('PUSH', te, key(body.split(':')[0])), P('GET_AND_UPDATE')])
+            val = P('None') if c == 'D' else P('Some', u.venc(body.split(':')[1]))
+            e = ex([P('PUSH', P('option', u.vty), val), P('PUSH', te, key(body.split(':')[0])), P('GET_AND_UPDATE')])
             if e is None:
                 r = stack.items.pop(0)
-                obs = 'N' if r.item is None else str(int(r.item))
+                obs = 'N' if r.item is None else str(u.vdec(r.item))
         elif c == 'M':
             e = ex([P('MAP', [P('CDR'), P('PUSH', INT, {'int': body}), P('ADD')])])
         elif c == 'z':
@@ -196,14 +223,14 @@ def real_run(u, kind, start, ops):
             if e is None:
                 obs = str(int(stack.items.pop(0)))
         elif c == 'i':
-            elt = te if kind == 'set' else P('pair', te, INT)
+            elt = te if kind == 'set' else P('pair', te, u.vty)
             e = ex([P('DUP'), P('NIL', elt), P('SWAP'), P('ITER', [P('CONS')])])
             if e is None:
                 lst = list(stack.items.pop(0))[::-1]
                 if kind == 'set':
                     obs = ','.join(str(u.cls_of_raw(R.raw_of_obj(x))) for x in lst)
                 else:
-                    obs = ','.join(f'{u.cls_of_raw(R.raw_of_obj(x.items[0]))}:{int(x.items[1])}' for x in lst)
+                    obs = ','.join(f'{u.cls_of_raw(R.raw_of_obj(x.items[0]))}:{u.vdec(x.items[1])}' for x in lst)
         else:
             raise ValueError(op)
         if e is not None:
@@ -228,7 +255,7 @@ def first_diff(a, b):
 
 
 def describe(u, kind, start, ops):
-    return {'kind': kind, 'key_type': G.ty_text(u.t), 'universe': [G.to_text(v) for v in u.vals], 'start': start, 'ops': ops}
+    return {'kind': kind, 'key_type': G.ty_text(u.t), 'value_type': u.vkind, 'universe': [G.to_text(v) for v in u.vals], 'start': start, 'ops': ops}
 
 
 def shrink(u, kind, start, ops):
@@ -264,10 +291,11 @@ def run(ctx):
         while t is None or not G.inhabited(t):
             t = G.gen_type(rng, rng.randrange(0, 3), allow_never=False)
         n = rng.randrange(3, 9)
-        u = Universe(t, gen_universe(rng, t, n))
         kind = 'set' if h % 2 == 0 else 'map'
+        vkind = rng.choice(list(VALUE_KINDS)) if (kind == 'map' and rng.random() < 0.4) else 'int'
+        u = Universe(t, gen_universe(rng, t, n), vkind)
         ln = max_len if (not quick and h % 5 == 0) else min(max_len, 30)
-        start, ops = gen_history(rng, kind, n, ln)
+        start, ops = gen_history(rng, kind, n, ln, None if vkind == 'int' else len(u.vlits))
         hists.append((u, kind, start, ops, 'random'))
     if not quick:
         small = [
@@ -296,6 +324,8 @@ def run(ctx):
         ctx.case(desc, nontrivial=len(inserted) >= 2)
         ctx.count('kind', kind + ':' + origin)
         ctx.count('key-type', ty_family(u.t))
+        if kind == 'map':
+            ctx.count('map-value-type', u.vkind)
         ctx.count('length', min(len(ops) // 10 * 10, 100))
         ctx.count('start', 'empty' if start[0] == 'e' else want[0] if want[0].startswith('reject') else 'literal-accepted')
         d = first_diff(real, want)
@@ -320,6 +350,7 @@ def run(ctx):
         'every comparable type in C03.tval_strictTotal and for Int keys in C14.int_strictTotal)',
         'CPython `sorted` (stable, `__lt__` only), `set` (eq-classes; `__hash__` consistent with `__eq__`), `filter`, `next`, list `==`/`in` '
         'are modelled, not verified; sampled by every history here',
-        'MAP bodies are modelled as a function of (key, value) that cannot change the key; the histories use { CDR; PUSH int c; ADD }; map values are ints',
+        'MAP bodies are modelled as a function of (key, value) that cannot change the key; the histories use { CDR; PUSH int c; ADD } (int-valued maps only); map values '
+        'are opaque to the dictionary semantics: 40% of the map histories carry bool / string / bytes / list / option / set values (incl. the empty / False ones) rendered from integer codes',
         'big_map is C15',
     ]
